@@ -199,7 +199,13 @@ class Scenario:
     def _group(self, name, n, pos, members, vector=None):
         g = new_group(self.tree, self.hooks)
         if pos:
-            v, _ = make_vector(self.tree, {c: pos + "." + c for c in "xyz"}, unit="m", shape=(n,), hooks=self.hooks)
+            if name == "part":
+                # a position built from x and y, its z component assigned afterwards (pos.z = z, as client code does for 3-D data):
+                # the Vector is what its components are NOW
+                v, _ = make_vector(self.tree, {c: pos + "." + c for c in "xy"}, unit="m", shape=(n,), hooks=self.hooks)
+                _ev(self.tree, self.hooks).obj_setattr(v, "z", ArrTok(pos + ".z", "m", (n,)))
+            else:
+                v, _ = make_vector(self.tree, {c: pos + "." + c for c in "xyz"}, unit="m", shape=(n,), hooks=self.hooks)
             call_method(self.tree, self.hooks, g, "__setitem__", "position", v)
         for k, tag in members.items():
             call_method(self.tree, self.hooks, g, "__setitem__", k, ArrTok(tag, "g", (n,)))
